@@ -139,6 +139,64 @@ func genECond(r *vh.Rand, rs []c1xroute.Rule, depth int) econd {
 	}
 }
 
+// starTable: a product with the any-host rule `*` next to one or two wildcard domains (and sometimes an exact
+// host), and a request host zero, one, two or three labels below such a domain.
+func starTable(r *vh.Rand, advMode bool) ([]c1xroute.Rule, string) {
+	dom := r.Pick("foo.com", "a.com", "b.foo.com", "com", "www.a.b")
+	cl := func(i int) string {
+		if advMode && r.Chance(1, 5) {
+			return "ADVANCED_MODE"
+		}
+		return "s" + string(rune('0'+i))
+	}
+	path := func() []string {
+		switch r.Intn(4) {
+		case 0:
+			return []string{"/a/*"}
+		case 1:
+			return nil
+		default:
+			return []string{"*"}
+		}
+	}
+	var rs []c1xroute.Rule
+	if !r.Chance(1, 6) {
+		rs = append(rs, c1xroute.Rule{Hosts: []string{"*"}, Paths: path(), Cluster: cl(0)})
+	}
+	rs = append(rs, c1xroute.Rule{Hosts: []string{"*." + dom}, Paths: path(), Cluster: cl(1)})
+	if r.Chance(1, 2) {
+		rs = append(rs, c1xroute.Rule{Hosts: []string{"*.img." + dom}, Paths: path(), Cluster: cl(2)})
+	}
+	if r.Chance(1, 3) {
+		rs = append(rs, c1xroute.Rule{Hosts: []string{"www." + dom}, Paths: path(), Cluster: cl(3)})
+	}
+	r2 := rs
+	if r.Bool() { // order of the rules must not matter
+		for i, j := 0, len(r2)-1; i < j; i, j = i+1, j-1 {
+			r2[i], r2[j] = r2[j], r2[i]
+		}
+	}
+	h := dom
+	switch r.Intn(6) {
+	case 0:
+	case 1:
+		h = r.Pick("x", "www", "img") + "." + dom
+	case 2, 3:
+		h = r.Pick("a", "x") + "." + r.Pick("img", "b", "y") + "." + dom
+	case 4:
+		h = "a.b." + r.Pick("img", "c") + "." + dom
+	default:
+		h = r.Pick("other.org", "x.y.z", "localhost")
+	}
+	if r.Chance(1, 4) {
+		h = strings.ToUpper(h)
+	}
+	if r.Chance(1, 4) {
+		h += ":8080"
+	}
+	return r2, h
+}
+
 func genE(r *vh.Rand) string {
 	rs := c1xroute.GenRules(r, r.Intn(4), true)
 	b := "none"
@@ -158,7 +216,21 @@ func genE(r *vh.Rand) string {
 		parts = append(parts, c.tok+"!"+cl)
 	}
 	p := c1xroute.GenProbePath(r, rs)
-	return "b=" + b + ";c=" + strings.Join(parts, "@") + ";h=" + c1xroute.GenProbeHost(r, rs) + ";p=" + p + ";m=" + r.Pick("GET", "GET", "POST", "HEAD", "get")
+	h := c1xroute.GenProbeHost(r, rs)
+	if r.Chance(1, 4) {
+		var srs []c1xroute.Rule
+		srs, h = starTable(r, true)
+		b = c1xroute.FormatRules(srs)
+	}
+	return "b=" + b + ";c=" + strings.Join(parts, "@") + ";h=" + h + ";p=" + p + ";m=" + r.Pick("GET", "GET", "POST", "HEAD", "get") + composeFlag(r)
+}
+
+// composeFlag marks half of the cases as C12 ∘ C11: the driver then computes the basic answer itself.
+func composeFlag(r *vh.Rand) string {
+	if r.Bool() {
+		return ";k=1"
+	}
+	return ""
 }
 
 // parseTokens rebuilds the condition text from the prefix-notation tokens (exec must be a pure function of the op).
@@ -243,7 +315,13 @@ func gen(r0 *vh.Rand) string {
 	if r.Chance(1, 25) {
 		p = "nil"
 	}
-	return "b=" + b + ";a=" + a + ";h=" + c1xroute.GenProbeHost(r, rs) + ";p=" + p + ";m=" + r.Pick("GET", "GET", "POST", "HEAD")
+	h := c1xroute.GenProbeHost(r, rs)
+	if hasBasic && r.Chance(1, 4) {
+		var srs []c1xroute.Rule
+		srs, h = starTable(r, true)
+		b = c1xroute.FormatRules(srs)
+	}
+	return "b=" + b + ";a=" + a + ";h=" + h + ";p=" + p + ";m=" + r.Pick("GET", "GET", "POST", "HEAD") + composeFlag(r)
 }
 
 func exec(op string) string {
